@@ -970,7 +970,8 @@ where
         job.job_controlled = true;
         job.state = result.into();
         job.name = name();
-        env.jobs.insert(job);
+        let index = env.jobs.insert(job);
+        env.jobs.set_current_job(index).ok();
 
         if env.is_interactive() {
             return Break(Divert::Interrupt(Some(exit_status)));
@@ -992,7 +993,8 @@ where
 /// `Break(Divert::Interrupt(Some(result.into())))`.
 ///
 /// If the process result indicates that the process is stopped, this function
-/// [inserts a job to the job list](JobList::insert) in the environment.
+/// [inserts a job to the job list](JobList::insert) in the environment and
+/// makes it the [current job](JobList::current_job).
 /// The job is marked as job-controlled and its state is derived from the process
 /// result. The job name is set to the result of the `job_name` closure, which
 /// is called only if the job is inserted. If the current environment is
@@ -1020,7 +1022,12 @@ where
         job.job_controlled = true;
         job.state = result.into();
         job.name = job_name();
-        env.jobs.insert(job);
+        let index = env.jobs.insert(job);
+        // The job that has just been suspended becomes the current job and the
+        // old current job becomes the previous job, as in `update_status`.
+        // (`insert` would make it the previous job if the current job is also
+        // suspended.)
+        env.jobs.set_current_job(index).ok();
 
         if env.is_interactive() {
             return Break(Divert::Interrupt(Some(exit_status)));
@@ -1770,6 +1777,23 @@ mod tests {
             assert!(job.job_controlled);
             assert_eq!(job.state, ProcessState::Halted(process_result));
             assert_eq!(job.name, "foo");
+        }
+
+        #[test]
+        fn stopped_job_becomes_current_job() {
+            let mut env = Env::new_virtual();
+            let process_result = ProcessResult::Stopped(SIGTSTP);
+            _ = handle_job_status(&mut env, Pid(10), process_result, || "foo".to_string());
+            _ = handle_job_status(&mut env, Pid(20), process_result, || "bar".to_string());
+            let i10 = env.jobs.find_by_pid(Pid(10)).unwrap();
+            let i20 = env.jobs.find_by_pid(Pid(20)).unwrap();
+            assert_eq!(env.jobs.current_job(), Some(i20));
+            assert_eq!(env.jobs.previous_job(), Some(i10));
+
+            _ = handle_job_status(&mut env, Pid(30), process_result, || "baz".to_string());
+            let i30 = env.jobs.find_by_pid(Pid(30)).unwrap();
+            assert_eq!(env.jobs.current_job(), Some(i30));
+            assert_eq!(env.jobs.previous_job(), Some(i20));
         }
 
         #[test]
